@@ -13,15 +13,12 @@ package main
 //                       has to predict it from its own counter
 //             e <obs>  (echo) once a case has executed an instruction outside the modelled set
 // ops line:   gas <limit picoGAS | -1> <price base>   (first line of a case, echoed)
-// obs line:   <NONE|HALT> <refs> <reach> <depth> <reachG> <datoshi>   |   FAULT
-//             reachG: what a walk from the roots AND from the ghost list (items of the evaluation stacks dropped
-//             by exception unwinding so far) finds; without cycles it must equal refs (refs_exact_unwind)
+// obs line:   <NONE|HALT> <refs> <reach> <depth> <datoshi>   |   FAULT
 
 import (
 	"encoding/binary"
 	"errors"
 	"fmt"
-	"os"
 	"strings"
 
 	"github.com/nspcc-dev/neo-go/pkg/core/fee"
@@ -415,8 +412,6 @@ func (rn *runner) exec(p *caseProg, emit bool) runResult {
 		underOff  bool // an under-count was already reported for this case
 		lost      bool
 		pendExc   bool
-		ghost     []stackitem.Item // items of the evaluation stacks dropped by exception unwinding so far
-		finding   bool             // the known finding was already reported for this case
 		lastOp    = "LOAD"
 		badIP     string
 		checkedIP int
@@ -479,39 +474,33 @@ func (rn *runner) exec(p *caseProg, emit bool) runResult {
 		_ = stepped
 		return fmt.Sprintf("%s %d %d %d", name, refs, wr.reach, depth)
 	}
-	// withGhost completes an observation with reachG; to be called right after check() (the walker
-	// still holds the marks of that walk) once the ghost list is up to date
-	withGhost := func(obs string) string {
+	// withGas completes an observation with the consumed datoshi
+	withGas := func(obs string) string {
 		if obs == "FAULT" {
 			return obs
 		}
-		return fmt.Sprintf("%s %d %d", obs, walkGhost(ghost), v.GasConsumed())
+		return fmt.Sprintf("%s %d", obs, v.GasConsumed())
 	}
-
-	// exactness: without cycles the counter equals what a walk from the roots and from the ghost
-	// list finds (refs_exact_unwind) — strictly; the part of it that the ghost list explains is the
-	// known finding, reported once per case.
+	// exactness: without cycles the counter equals what a walk from the roots finds — strictly, also after
+	// exception unwinding across evaluation stacks (handleException releases what it drops, /repo 65b0965).
+	// A mismatch that first shows at an instruction that unwound across an evaluation stack keeps the key of the
+	// former finding.
 	exactness := func(obs string, unwoundAcross bool, droppedPrims, droppedAll int) {
 		if exactOff || underOff || everCyc || obs == "FAULT" {
 			return
 		}
-		var refs, reach, depth, reachG int
+		var refs, reach, depth int
 		var st string
-		fmt.Sscanf(obs, "%s %d %d %d %d", &st, &refs, &reach, &depth, &reachG)
-		if refs != reachG {
-			exactOff = true
-			res.leaked = true
-			o.Fail("refs-mismatch-after-"+lastOp, rn.k, "after %s: VM counter %d, %d reachable by walking (%d together with the %d items of evaluation stacks dropped by unwinding), no cyclic structure was ever built", lastOp, refs, reach, reachG, len(ghost))
+		fmt.Sscanf(obs, "%s %d %d %d", &st, &refs, &reach, &depth)
+		if refs == reach {
 			return
 		}
-		if refs != reach && !finding {
-			finding = true
-			res.leaked = true
-			if unwoundAcross && droppedPrims == droppedAll {
-				o.Fail("unwind-across-estack", rn.k, "after %s unwinding to a context with another evaluation stack: VM counter %d, %d reachable by walking (%d items of the dropped stack(s) stay counted), no cyclic structure was ever built", lastOp, refs, reach, droppedAll)
-			} else {
-				o.Fail("unwind-across-estack", rn.k, "after %s unwinding to a context with another evaluation stack: VM counter %d, %d reachable by walking (dropped stack(s) held %d items, some compound), no cyclic structure was ever built", lastOp, refs, reach, droppedAll)
-			}
+		exactOff = true
+		res.leaked = true
+		if unwoundAcross && refs > reach {
+			o.Fail("unwind-across-estack", rn.k, "after %s unwinding to a context with another evaluation stack: VM counter %d, %d reachable by walking (dropped stack(s) held %d items, %d of them primitives), no cyclic structure was ever built", lastOp, refs, reach, droppedAll, droppedPrims)
+		} else {
+			o.Fail("refs-mismatch-after-"+lastOp, rn.k, "after %s: VM counter %d, %d reachable by walking, no cyclic structure was ever built", lastOp, refs, reach)
 		}
 	}
 
@@ -525,7 +514,7 @@ func (rn *runner) exec(p *caseProg, emit bool) runResult {
 		}
 		cfgLine := fmt.Sprintf("gas %d %d", lim, p.base)
 		o.Line(cfgLine, cfgLine)
-		o.Line("load", withGhost(check(false)))
+		o.Line("load", withGas(check(false)))
 	}
 	for {
 		st := v.State()
@@ -646,9 +635,6 @@ func (rn *runner) exec(p *caseProg, emit bool) runResult {
 						droppedPrims++
 					}
 				}
-				if !unwindFixed {
-					ghost = append(ghost, its...)
-				}
 			}
 			if emit {
 				o.Count(fmt.Sprintf("unwind:k=%d,c=%d", min(kpop, 3), c))
@@ -679,7 +665,7 @@ func (rn *runner) exec(p *caseProg, emit bool) runResult {
 				}
 			}
 		}
-		obs = withGhost(obs)
+		obs = withGas(obs)
 		flag := ""
 		tryFault := stepErr != nil && strings.Contains(stepErr.Error(), "maximum TRY depth exceeded")
 		if tryFault && emit {
@@ -753,11 +739,7 @@ func (rn *runner) exec(p *caseProg, emit bool) runResult {
 
 var dumpFaults bool
 
-// unwindFixed (env VM_UNWIND_FIXED=1): evaluate a candidate repair of the known finding unwind-across-estack.
-// With the repair handleException releases the items of the evaluation stacks it drops, so nothing is added
-// to the ghost list and the strict exactness oracle demands counter == walk from the real roots alone. (The
-// Lean model mirrors the unrepaired code: the correspondence half is not meaningful in this mode.)
-var unwindFixed = os.Getenv("VM_UNWIND_FIXED") != ""
+
 
 func trunc(s string, n int) string {
 	if len(s) > n {
